@@ -28,7 +28,9 @@ static inline OperandSignature get_suitable_reg_for_mem_to_mem_move(Arch arch, T
   uint32_t max_size = Support::max<uint32_t>(dst_size, src_size);
   uint32_t reg_size = Environment::reg_size_of_arch(arch);
 
-  if (max_size <= reg_size || (TypeUtils::is_int(dst_type_id) && TypeUtils::is_int(src_type_id))) {
+  // GP registers are used to move integers (which can be sign or zero extended) and to copy values of other types
+  // that fit, but only if no conversion is required (the size of the source and destination type is the same).
+  if ((max_size <= reg_size && dst_size == src_size) || (TypeUtils::is_int(dst_type_id) && TypeUtils::is_int(src_type_id))) {
     signature = max_size <= 4 ? RegTraits<RegType::kGp32>::kSignature
                               : RegTraits<RegType::kGp64>::kSignature;
   }
